@@ -6,6 +6,10 @@ import core
 ID = "C13"
 LEAN_MODULES = ["KaVerif.Props.C13"]
 GEN = ["Units"]
+# facts of the REVIEWED tree that a harmless change can take away (a new unit has no reference entry yet, an alias is a key that is
+# not the unit's own spelling): when they no longer build, the run says so in a NOTE and in the evidence — it is not a lost tie
+OPTIONAL_MODULES = ["KaVerif.Props.C13Complete"]
+OPTIONAL_THEOREMS = ["KaVerif.C13_reference_complete", "KaVerif.C13_sizes_all", "KaVerif.C13_maps_own_spellings"]
 THEOREMS = ["KaVerif.C13_exact_wins", "KaVerif.C13_prefix_unique", "KaVerif.C13_prefix_scales", "KaVerif.C13_unknown_iff",
             "KaVerif.C13_code_points", "KaVerif.C13_reachable", "KaVerif.C13_maps_wellformed", "KaVerif.C13_prefix_mult",
             "KaVerif.C13_prefix_table", "KaVerif.C13_prefixes_distinct", "KaVerif.C13_dimensions", "KaVerif.C13_sizes", "KaVerif.C13_reference_covered",
@@ -83,6 +87,15 @@ def check(ctx):
             by_spelling.setdefault(w, set()).add(i)
         sym_of.setdefault(u.symbol, set()).add(i)
         by_spelling.setdefault(u.symbol, set()).add(i)
+
+    # ALIASES: a key of the two maps (taken as a snapshot now, before any lookup) that points at a unit under another spelling than the
+    # unit's own three — e.g. `meter` for the metre — is a registered spelling of that unit as well
+    idx_of = {id(u): i for i, u in enumerate(units)}
+    for table_, store in ((U.NAME_TO_UNIT, name_of), (U.SYMBOL_TO_UNIT, sym_of)):
+        for w, uo in list(table_.items()):
+            if id(uo) in idx_of and idx_of[id(uo)] not in by_spelling.get(w, ()):
+                store.setdefault(w, set()).add(idx_of[id(uo)])
+                by_spelling.setdefault(w, set()).add(idx_of[id(uo)])
 
     def pmult(p):
         return Fraction(p.base) ** p.exponent          # the documented meaning of the prefix, not p.multiplier
